@@ -2,7 +2,7 @@
 import os
 
 from . import core
-from .rules import ed, ts, mt, nl
+from .rules import ed, ts, mt, nl, sp
 
 UNITS = {
     "selftest-cpp": (os.path.join(core.VERIF, "selftest", "positives.cpp"), "c++", ()),
@@ -63,3 +63,9 @@ def run(P, C, engines):
         g = nl.site_verdicts(fs["st_nl1_tested"], ())
         C.selftest("NL-1", any(a["bad"] for a in b.values()) and bool(g) and not any(a["bad"] for a in g.values()),
                    "blind dereference of a nullable array flagged, tested twin silent")
+    if "sp" in engines:
+        _c, _i, bad = sp.analyse(P.one("st_sp1_stale"))
+        _c2, _i2, good = sp.analyse(P.one("st_sp1_reloaded"))
+        C.selftest("SP-1", bool(bad) and bool(_c2) and not good, "stale read of a cached factor array flagged, reloaded twin silent")
+        nf, rel = sp.freed_derefs(P.one("st_sp2_released"))
+        C.selftest("SP-2", nf == 1 and bool(rel), "field read through a released object flagged")
